@@ -10,7 +10,10 @@ C10 (loader layer) — what stands between "a certificate names distribution poi
   `Crv.Props.C10.strict_unsupported_denied`, e.g. only `ldap://` distribution points);
 * multi loader: per `LoadCRL` call every loader is called at most once, the last successful one first, the call fails
   only after *every* loader has failed in this call, and no history of earlier calls can make the loader give up on a
-  distribution point that answers now (`no_blacklisting`).
+  distribution point that answers now (`no_blacklisting`);
+* histories of calls: `lastSuccessfulLoader` is nil exactly when no loader has answered in any call so far
+  (`never_answered_iff_nil`), a repeated success through the remembered loader is a single request
+  (`repeat_success_single_call`), a fail-over asks the remembered loader first and nobody twice (`failover_asks_last_once`).
 
 The model reads the shape of the Go code from `Crv.Generated.Loader`; `facts_canonical` pins the values the theorems
 were proved for, every proof unfolds the generated constants it needs (another value breaks the proof).
@@ -263,6 +266,70 @@ theorem no_blacklisting (n : Nat) (hist : List (Nat → Bool)) (out : Nat → Bo
   rw [hn'] at this
   exact ⟨j, hj, this, h1⟩
 
+/-! ### Histories of `LoadCRL` calls -/
+
+/-- One call: `lastSuccessfulLoader` is nil afterwards exactly when it was nil before and no loader answered. -/
+theorem load_last_none_iff (m : Multi) (out : Nat → Bool) (hwf : m.wf = true) :
+    (load m out).1.last = none ↔ (m.last = none ∧ ∀ j, j < m.n → out j = false) := by
+  obtain ⟨hs, hf, -⟩ := load_sets_last m out
+  cases hr : (load m out).2.1 with
+  | some x =>
+    have hx := hs x hr
+    obtain ⟨h1, h2, -⟩ := load_result_succeeds m out x hr
+    have hlt := load_trace_in_range m out hwf x h2
+    constructor
+    · intro h; rw [hx] at h; cases h
+    · rintro ⟨-, h⟩; have := h x hlt; rw [h1] at this; cases this
+  | none =>
+    rw [hf hr]
+    obtain ⟨h1, h2, -⟩ := load_failure_tries_everyone m out hr
+    exact ⟨fun h => ⟨h, fun j hj => h2 j (h1 j hj)⟩, fun h => h.1⟩
+
+/-- Histories, from any well-formed state: `lastSuccessfulLoader` is nil at the end exactly when it was nil at the start
+and in no call of the history any loader answered. -/
+theorem runCalls_last_none_iff (m : Multi) (hist : List (Nat → Bool)) (hwf : m.wf = true) :
+    (runCalls m hist).last = none ↔ (m.last = none ∧ ∀ o ∈ hist, ∀ j, j < m.n → o j = false) := by
+  induction hist generalizing m with
+  | nil => simp [runCalls]
+  | cons o os ih =>
+    have hn : (load m o).1.n = m.n := (load_sets_last m o).2.2
+    rw [runCalls, ih (load m o).1 (load_keeps_wf m o hwf), load_last_none_iff m o hwf, hn]
+    constructor
+    · rintro ⟨⟨h1, h2⟩, h3⟩
+      refine ⟨h1, ?_⟩
+      intro o' ho'
+      cases List.mem_cons.mp ho' with
+      | inl h => rw [h]; exact h2
+      | inr h => exact h3 o' h
+    · rintro ⟨h1, h2⟩
+      exact ⟨⟨h1, h2 o List.mem_cons_self⟩, fun o' ho' => h2 o' (List.mem_cons_of_mem _ ho')⟩
+
+/-- **`lastSuccessfulLoader` is nil ⇔ nothing ever answered.** On a loader object built by the factory the field is nil
+after a history of calls exactly when no loader answered in any of them: it is set by the first successful call and never
+reset, so "no remembered loader" never hides a distribution point that has answered. -/
+theorem never_answered_iff_nil (n : Nat) (hist : List (Nat → Bool)) :
+    (runCalls (fresh n) hist).last = none ↔ ∀ o ∈ hist, ∀ j, j < n → o j = false := by
+  have h := runCalls_last_none_iff (fresh n) hist rfl
+  have hl : (fresh n).last = none := rfl
+  have hn : (fresh n).n = n := rfl
+  rw [hl, hn] at h
+  exact h.trans ⟨fun h => h.2, fun h => ⟨rfl, h⟩⟩
+
+/-- **Steady state: one request per refresh.** After a call that returned through loader `j`, a following call in which
+`j` answers again asks `j` and nobody else, returns through `j` and leaves the state as it is — whatever the other
+distribution points would do. -/
+theorem repeat_success_single_call (m : Multi) (o1 o2 : Nat → Bool) (j : Nat)
+    (h1 : (load m o1).2.1 = some j) (h2 : o2 j = true) :
+    load (load m o1).1 o2 = ((load m o1).1, some j, [j]) :=
+  load_prefers_last _ o2 j ((load_sets_last m o1).1 j h1) h2
+
+/-- **Fail-over costs one extra request.** After a call that returned through `j`, a following call in which `j` fails asks
+`j` first and then every other loader at most once, `j` never a second time. -/
+theorem failover_asks_last_once (m : Multi) (o1 o2 : Nat → Bool) (j : Nat)
+    (h1 : (load m o1).2.1 = some j) :
+    (load (load m o1).1 o2).2.2.head? = some j ∧ (load (load m o1).1 o2).2.2.Nodup :=
+  ⟨load_tries_last_first _ o2 j ((load_sets_last m o1).1 j h1), load_each_loader_at_most_once _ o2⟩
+
 /-! ### Non-vacuity -/
 
 -- retry: success on the third of five calls; five failures; attempts ≤ 0 is one call
@@ -289,5 +356,11 @@ example : load ⟨3, some 1⟩ (fun j => j == 2) = (⟨3, some 2⟩, some 2, [1,
 -- after any number of total failures the next call still finds the loader that answers
 example : (load (runCalls (fresh 3) [fun j => j == 1, fun _ => false, fun _ => false, fun _ => false]) (fun j => j == 0)).2
     = (some 0, [1, 0]) := by decide
+
+-- histories: nil exactly when nothing ever answered; a repeated success is a single call
+example : (runCalls (fresh 3) [fun _ => false, fun _ => false]).last = none := by decide
+example : (runCalls (fresh 3) [fun _ => false, fun j => j == 2, fun _ => false]).last = some 2 := by decide
+example : load (load (fresh 3) (fun j => j == 2)).1 (fun j => j == 2 || j == 0) = (⟨3, some 2⟩, some 2, [2]) := by decide
+example : (load (load (fresh 3) (fun j => j == 2)).1 (fun j => j == 0)).2.2 = [2, 0] := by decide
 
 end Crv.Props.C10.Loader
